@@ -7,6 +7,8 @@
 (*    next  - one yielded showdown: board, hole cards, dyadic probability  *)
 (*    none  - next() returned None                                         *)
 (*    abandon - the iterator is dropped (configurations too large to drain)*)
+(*    route - a fresh iterator of the same configuration consumed through  *)
+(*            nth / skip / step_by / last / count / collect               *)
 (* Each next event must be a Yield of FlopEnum: a legal deal, inside the   *)
 (* scope, not yet yielded, at a position not before the current one, with  *)
 (* every position in between drained; each first none must be an Exhaust   *)
@@ -57,7 +59,19 @@ TraceNone ==
 \* an iterator that is too large to drain is dropped after its first showdowns (nothing is claimed about the rest)
 TraceAbandon == /\ l <= Len(Rec) /\ Rec[l].op = "abandon" /\ st = "running" /\ st' = "exhausted"
                 /\ l' = l + 1 /\ UNCHANGED <<cfg, deck, pos, seen, seenH>>
-TNext == TraceNew \/ TraceNext \/ TraceNone \/ TraceAbandon
+\* the same configuration enumerated once more through another route of the Iterator trait (nth, skip, step_by, last, count,
+\* collect), on a fresh iterator, after the plain run of the block has ended: what the route returned is the showdown the
+\* plain run yielded at that place (the event e.back lines earlier), or nothing where the plain run had ended
+TraceRoute ==
+  /\ l <= Len(Rec) /\ Rec[l].op = "route" /\ st = "exhausted"
+  /\ LET e == Rec[l] IN
+       /\ e.back >= 1 /\ e.back < l
+       /\ LET r == Rec[l - e.back] IN
+            \/ /\ e.res = "some" /\ r.op = "next"
+               /\ e.board = r.board /\ e.holes = r.holes /\ e.pm = r.pm /\ e.pe = r.pe
+            \/ e.res = "none" /\ r.op = "none"
+  /\ l' = l + 1 /\ UNCHANGED <<cfg, deck, pos, seen, seenH, st>>
+TNext == TraceNew \/ TraceNext \/ TraceNone \/ TraceAbandon \/ TraceRoute
 TSpec == TInit /\ [][TNext]_tvars
 \* acceptance: the whole trace was consumed; otherwise print the first event that matches no action
 Accepted == IF TLCGet("stats").diameter - 1 = Len(Rec) THEN TRUE
